@@ -7,8 +7,6 @@ import (
 	"strings"
 
 	"github.com/scionproto/scion/pkg/addr"
-	"github.com/scionproto/scion/pkg/scrypto"
-	"github.com/scionproto/scion/pkg/slayers/path"
 	"github.com/scionproto/scion/private/topology"
 	"github.com/scionproto/scion/router"
 
@@ -136,16 +134,6 @@ func (c *Config) Build() (*Router, error) {
 		return nil, err
 	}
 	return &Router{Cfg: c, DP: dp}, nil
-}
-
-// MAC computes a hop-field MAC with the real path.MAC under key.
-func MAC(key []byte, segID uint16, ts uint32, exp uint8, in, eg uint16) [6]byte {
-	h, err := scrypto.InitMac(key)
-	if err != nil {
-		panic(err)
-	}
-	return path.MAC(h, path.InfoField{SegID: segID, Timestamp: ts},
-		path.HopField{ExpTime: exp, ConsIngress: in, ConsEgress: eg}, nil)
 }
 
 // MAC computes the MAC of hop under this AS's key for the SegID/timestamp of info.
